@@ -91,11 +91,27 @@ def check_layout(case, workdir):
         r.label("periodic-single-subgrid-axis")
     if case["threads"] > 1:
         r.label("multi-threaded")
+    if case.get("cfl_bound"):
+        r.label("time-step-set-by-CFL")
     s1 = cmirun.parse_kv_lines(os.path.join(d1, "verif_hydro_steps.txt"))
     s1b = cmirun.parse_kv_lines(os.path.join(d1b, "verif_hydro_steps.txt"))
     if [x["digest"] for x in s1] != [x["digest"] for x in s1b]:
         return r.fail("two one-thread runs of the same problem are not bit-for-bit identical: digests %s vs %s" % (
             [x["digest"] for x in s1], [x["digest"] for x in s1b]))
+    # the time step chosen for every step (an exact power-of-two fraction of
+    # the total time) does not depend on layout, thread count or interleaving
+    sref = cmirun.parse_kv_lines(os.path.join(ref_d, "verif_hydro_steps.txt"))
+    sT = cmirun.parse_kv_lines(os.path.join(dT, "verif_hydro_steps.txt"))
+    for name, ss in (("1 thread", s1), ("%d threads" % case["threads"], sT)):
+        a = [(x["time"], x["timestep"]) for x in sref]
+        b = [(x["time"], x["timestep"]) for x in ss]
+        if a != b:
+            k = next((i for i in range(min(len(a), len(b))) if a[i] != b[i]), min(len(a), len(b)))
+            r.schedule_dependent = (ss is sT and case["threads"] > 1)
+            return r.fail("layout %s, %s: step %d is taken at time %s with time step %s, the undivided one-thread run takes it at %s with %s" % (
+                nsub, name, k + 1,
+                float.fromhex(b[k][0]) if k < len(b) else None, float.fromhex(b[k][1]) if k < len(b) else None,
+                float.fromhex(a[k][0]) if k < len(a) else None, float.fromhex(a[k][1]) if k < len(a) else None))
     varnames = ["mass", "px", "py", "pz", "energy", "rho", "vx", "vy", "vz", "P"]
     dyadic = all((nc & (nc - 1)) == 0 for nc in case["ncell"])
     r.label("dyadic-cells" if dyadic else "non-dyadic-cells")
@@ -205,13 +221,30 @@ def hydro_cases(draw, force_periodic=None):
             "velocity": [draw(st.floats(-2, 2, allow_subnormal=False)) * CS for _ in range(3)],
             "type": draw(st.sampled_from(["cube", "sphere"]))})
     dt = 0.05 * min(sides[i] / ncell[i] for i in range(3)) / (3. * CS)
+    # half of the cases leave the choice of the time step to the CFL criterion
+    # (no binding maximum): the step then depends on the minimum over all
+    # subgrids, which every thread count has to find
+    cfl_bound = draw(st.booleans())
+    threads = draw(st.sampled_from([1, 2, 4, 8, 16]))
+    if cfl_bound:
+        threads = draw(st.sampled_from([2, 4, 8, 16]))
+        # one small hot, fast region decides the time step
+        blocks.append({
+            "origin": [anchor[i] + sides[i] * draw(st.sampled_from([0.1, 0.3, 0.6, 0.9])) for i in range(3)],
+            "sides": [sides[i] * 0.15 for i in range(3)],
+            "density": 1e10, "temperature": draw(st.sampled_from([1e5, 1e6])),
+            "velocity": [0., 0., 0.], "type": "cube"})
     return {
         "ncell": ncell, "nsub": nsub, "periodic": periodic, "anchor": anchor, "sides": sides,
         "boundary": [draw(st.sampled_from(["reflective", "reflective", "inflow", "outflow"])) for _ in range(3)],
         "blocks": blocks, "gamma": draw(st.sampled_from([5. / 3., 1.4, 1.0001, 2.0])),
-        "total_time": dt * 64, "max_dt": dt * draw(st.sampled_from([1.0, 0.37, 2.0])),
-        "nsteps": draw(st.integers(2, 4)),
-        "threads": draw(st.sampled_from([1, 2, 4, 8, 16])),
+        # (CFL-bound cases: the total time is far away, so that the run does
+        # not end before the requested number of steps)
+        "total_time": dt * (65536 if cfl_bound else 64),
+        "max_dt": (dt * 65536 if cfl_bound else dt * draw(st.sampled_from([1.0, 0.37, 2.0]))),
+        "cfl_bound": cfl_bound,
+        "nsteps": draw(st.integers(3, 4)) if cfl_bound else draw(st.integers(2, 4)),
+        "threads": threads,
         "jitter": draw(st.one_of(st.none(), st.integers(0, 10 ** 6))),
     }
 
@@ -219,7 +252,7 @@ def hydro_cases(draw, force_periodic=None):
 SUBS = [
     pbt.Sub("layout_thread_independence", hydro_cases(), check_layout, quick=96, thorough=2000,
             shrink_budget=6,
-            rule="2..8 cells per axis, layouts dividing them (1..4 subgrids per axis incl. periodic axes with a single subgrid), periodic/reflective/inflow/outflow boundaries, 2-4 blocks, gamma in {5/3,1.4,1.0001,2}, 2-4 steps, 1..16 threads, jitter; oracle: full state per step vs the undivided one-thread run (tolerance 1e-11*step*(|x|+1e-3 scale)), two one-thread runs bitwise; non-trivial: divided grid and >= 2 steps",
+            rule="2..8 cells per axis, layouts dividing them (1..4 subgrids per axis incl. periodic axes with a single subgrid), periodic/reflective/inflow/outflow boundaries, 2-4 blocks, gamma in {5/3,1.4,1.0001,2}, 2-4 steps, 1..16 threads, jitter; in half of the cases the time step is left to the CFL criterion (a small hot region decides it, 2..16 threads, 3-4 steps); oracle: full state per step vs the undivided one-thread run (tolerance 1e-11*step*(|x|+1e-3 scale)), two one-thread runs bitwise; non-trivial: divided grid and >= 2 steps",
             floors={"divided": 0.5, "dyadic-cells": 0.25}),
     pbt.Sub("conservation_e2e", st.one_of(hydro_cases(True), hydro_cases()), check_conservation,
             quick=96, thorough=3000, shrink_budget=6,
